@@ -16,3 +16,4 @@ def run(rep, tier, seed, scratch):
     camp_props.run_single(rep, 'C12', tier, seed, 40, 300, allow={'collect_path': True})
     camp_props.run_single(rep, 'C12', tier, seed + 1, 16, 80, allow={'collect_path': True, 'iteration_limit': 400}, families=['line1'], name='collinear', scaling=False)
     camp_props.run_reuse_C12(rep, tier, seed)
+    camp_props.run_exact_near_optimum(rep, tier, seed)
